@@ -134,8 +134,10 @@ Proof.
   destruct (mapM _ (l_src l)) as [srcs|] eqn:HS; [|discriminate].
   apply mapM_pair_fst in HS.
   destruct (find_parent (p_acts p) (l_tgt l)) as [d|]; [|discriminate].
-  destruct (is_class_kind (d_kind d)).
-  - destruct (key_eqb (d_key d) (l_tgt l)); [discriminate|].
+  destruct (key_eqb (d_key d) (l_tgt l)).
+  - intro H. inversion H; subst; clear H. simpl. eexists. split; [reflexivity|].
+    split; [reflexivity|]. split; [|reflexivity]. split; [exact HS|exact I].
+  - destruct (is_class_kind (d_kind d)); [|discriminate].
     destruct (is_prefix (d_key d ++ [init_args]) (l_tgt l) && Nat.ltb (S (length (d_key d))) (length (l_tgt l))) eqn:P;
       [|discriminate].
     intro H. inversion H; subst; clear H. simpl. eexists. split; [reflexivity|].
@@ -146,9 +148,6 @@ Proof.
     apply Nat.ltb_lt in P2. intro E.
     assert (L : length (skipn (length (d_key d)) (l_tgt l)) = 0) by (rewrite E; reflexivity).
     rewrite skipn_length in L. lia.
-  - destruct (key_eqb (d_key d) (l_tgt l)); [|discriminate].
-    intro H. inversion H; subst; clear H. simpl. eexists. split; [reflexivity|].
-    split; [reflexivity|]. split; [|reflexivity]. split; [exact HS|exact I].
 Qed.
 
 (* what _initial_input_checks guarantees about the accepted links, in application order:
@@ -448,7 +447,7 @@ Proof.
   { revert H. unfold add_link. destruct (negb (init_checks (p_links p) l)); [discriminate|].
     destruct (mapM _ (l_src l)); [|discriminate].
     destruct (find_parent (p_acts p) (l_tgt l)) as [d|]; [|discriminate].
-    destruct (is_class_kind (d_kind d)); destruct (key_eqb (d_key d) (l_tgt l)); try discriminate.
+    destruct (key_eqb (d_key d) (l_tgt l)) eqn:K; [|destruct (is_class_kind (d_kind d)); [|discriminate]]; swap 1 2.
     - destruct (_ && _); [|discriminate]. intro H. inversion H. reflexivity.
     - intro H. inversion H. reflexivity. }
   apply add_link_links in H. destruct H as [a [L [A _]]].
@@ -535,7 +534,7 @@ Proof.
   destruct (negb (init_checks (p_links p) l)); [discriminate|].
   destruct (mapM _ (l_src l)) as [srcs|]; [|discriminate].
   destruct (find_parent (p_acts p) (l_tgt l)) as [d|] eqn:FP; [|discriminate].
-  destruct (is_class_kind (d_kind d)); destruct (key_eqb (d_key d) (l_tgt l)) eqn:K; try discriminate.
+  destruct (key_eqb (d_key d) (l_tgt l)) eqn:K; [|destruct (is_class_kind (d_kind d)); [|discriminate]]; swap 1 2.
   - destruct (_ && _); [|discriminate]. inversion H; subst; clear H. simpl.
     intros a Ha Hk. simpl in *. apply in_app_or in Ha. destruct Ha as [Ha|[<-|[]]]; [auto|discriminate].
   - inversion H; subst; clear H. intros a Ha Hk. simpl in *.
